@@ -132,7 +132,7 @@ func C04(tier string) int {
 	budget := 300 * time.Second
 	if tier == "thorough" {
 		bound = 3
-		budget = 60 * time.Minute
+		budget = 25 * time.Minute
 	}
 	var jobs []concJob
 	// Scenarios with two threads are small enough for every interleaving to be executed; larger ones are cut at the
